@@ -25,7 +25,9 @@ ID_KINDS = {
 ENTRIES = ["parse", "parse-text", "env-parse", "memory-store-ctor", "memory-source-ctor", "memory-sink-ctor", "memory-store-add", "memory-sink-add",
            "memory-load-from-file", "fs-sink-add", "fs-source-get", "fs-source-all-versions", "fs-source-query", "memory-bundle-add",
            # the same file read before under the other versions (and none) through the same and another source: no answer may depend on earlier reads
-           "fs-source-get-after-reads", "fs-source-query-after-reads"]
+           "fs-source-get-after-reads", "fs-source-query-after-reads",
+           # the documented backward-compatible layout: a plain <id>.json directly in a type directory that also holds <id>/<modified>.json directories
+           "fs-source-get-flat-legacy", "fs-source-all-versions-flat-legacy", "fs-source-query-flat-legacy"]
 VERSIONS = [None, "2.0", "2.1"]
 
 
@@ -104,6 +106,15 @@ def route(entry, doc, v, allow_custom, tmp):
     t = doc["type"]
     d = os.path.join(fsdir, t)
     versioned = "modified" in doc
+    if entry.endswith("-flat-legacy"):
+        entry = entry[:-len("-flat-legacy")]
+        if versioned:
+            sib = dict(doc, id="%s--%s" % (t, "7e4ba2c2-6b3e-4a0f-9a6e-0e2f5f5d0a11"))
+            sd = os.path.join(d, sib["id"])
+            os.makedirs(sd, exist_ok=True)
+            with open(os.path.join(sd, "".join(ch for ch in doc["modified"] if ch.isdigit()) + ".json"), "w") as f:
+                json.dump(sib, f)
+            versioned = False       # the document under test goes into the flat file
     if versioned:
         d = os.path.join(d, oid)
         os.makedirs(d, exist_ok=True)
